@@ -1,8 +1,9 @@
 (** C27 — Regexp printing and optimisation preserve the matched language.
 
     Level: translation validation with a PROVED checker.  regexp/syntax.Parse is not modelled; for every
-    generated pattern the harness exports a0 = Parse p, a1 = Parse (RegexpString a0), a2 = OptimizeRegexp a0
-    and the run evaluates [c27_print_ok] / [c27_opt_ok] (equality of normal forms) by vm_compute.  The
+    generated pattern the harness exports a0 = Parse p, a1 = Parse (RegexpString a0), a2 = OptimizeRegexp a0,
+    a3 = Parse (RegexpString a2) and the run evaluates [c27_print_ok] / [c27_opt_ok] / [c27_optprint_ok] (equality of
+    normal forms) by vm_compute.  The
     theorems below say that each [true] is a proof that the two expressions match exactly the same
     (text, start, end) triples — for ALL subject texts.
 
@@ -27,11 +28,11 @@ Proof. exact ends_spec. Qed.
 Print Assumptions C27_ends_exact.
 
 (** What a [true] of the runner means: printing + re-parsing preserved the language ... *)
-Theorem C27_print_certificate : forall a0 a1 a2 ss, c27_print_ok (a0, a1, a2, ss) = true ->
+Theorem C27_print_certificate : forall a0 a1 a2 a3 ss, c27_print_ok (a0, a1, a2, a3, ss) = true ->
   forall t i, (forall j, In j (ends orbit a0 t i) <-> In j (ends orbit a1 t i)) /\
               matches_at orbit a0 t i = matches_at orbit a1 t i.
 Proof.
-  intros a0 a1 a2 ss H t i. unfold c27_print_ok, nrm in H. apply re_eqb_eq in H.
+  intros a0 a1 a2 a3 ss H t i. unfold c27_print_ok, nrm in H. apply re_eqb_eq in H.
   assert (Hj : forall j, In j (ends orbit a0 t i) <-> In j (ends orbit a1 t i)) by (intros j; apply C27_norm_sound; exact H).
   split; [exact Hj|]. unfold matches_at.
   destruct (ends orbit a0 t i) as [|e es] eqn:E0, (ends orbit a1 t i) as [|e' es'] eqn:E1; try reflexivity.
@@ -41,11 +42,11 @@ Qed.
 Print Assumptions C27_print_certificate.
 
 (** ... and OptimizeRegexp (capture removal, re-parse, Simplify) preserved it. *)
-Theorem C27_optimize_certificate : forall a0 a1 a2 ss, c27_opt_ok (a0, a1, a2, ss) = true ->
+Theorem C27_optimize_certificate : forall a0 a1 a2 a3 ss, c27_opt_ok (a0, a1, a2, a3, ss) = true ->
   forall t i, (forall j, In j (ends orbit a0 t i) <-> In j (ends orbit a2 t i)) /\
               matches_at orbit a0 t i = matches_at orbit a2 t i.
 Proof.
-  intros a0 a1 a2 ss H t i. unfold c27_opt_ok, nrm in H. apply re_eqb_eq in H.
+  intros a0 a1 a2 a3 ss H t i. unfold c27_opt_ok, nrm in H. apply re_eqb_eq in H.
   assert (Hj : forall j, In j (ends orbit a0 t i) <-> In j (ends orbit a2 t i)) by (intros j; apply C27_norm_sound; exact H).
   split; [exact Hj|]. unfold matches_at.
   destruct (ends orbit a0 t i) as [|e es] eqn:E0, (ends orbit a2 t i) as [|e' es'] eqn:E1; try reflexivity.
@@ -53,6 +54,15 @@ Proof.
   - exfalso. apply (proj1 (Hj e)). left; reflexivity.
 Qed.
 Print Assumptions C27_optimize_certificate.
+
+(** ... and so did printing the optimised regexp and parsing it again (the form held by query.Regexp is what
+    index/matchtree.go compiles and what the proto / gob encodings carry). *)
+Theorem C27_optimized_print_certificate : forall a0 a1 a2 a3 ss, c27_optprint_ok (a0, a1, a2, a3, ss) = true ->
+  forall t i j, In j (ends orbit a2 t i) <-> In j (ends orbit a3 t i).
+Proof.
+  intros a0 a1 a2 a3 ss H t i j. unfold c27_optprint_ok, nrm in H. apply re_eqb_eq in H. apply C27_norm_sound; exact H.
+Qed.
+Print Assumptions C27_optimized_print_certificate.
 
 (** Instances that hold for every expression (no run needed): removing a capture, and the
     x{n,m} / x{n,} expansion performed by Simplify, never change the language. *)
@@ -78,15 +88,16 @@ Print Assumptions C27_simplify_repeat_sound.
 Example C27_nonvacuous_certifies :
   let a0 := RAlt [RCapture (RLit false [120]); RLit false [97]; RLit false [98]; RLit false [98; 99]]%N in
   let a2 := RAlt [RClass [(97, 98); (120, 120)]; RLit false [98; 99]]%N in
-  c27_opt_ok (a0, a0, a2, []) = true /\ ends orbit a0 [98; 99]%N 0 = [1; 2]%nat /\ ends orbit a2 [98; 99]%N 0 = [1; 2]%nat.
+  c27_opt_ok (a0, a0, a2, a2, []) = true /\ ends orbit a0 [98; 99]%N 0 = [1; 2]%nat /\ ends orbit a2 [98; 99]%N 0 = [1; 2]%nat.
 Proof. vm_compute. repeat split. Qed.
 (** ... x{2,3} against Simplify's xx(x)?, a case-folded literal against the class the parser may print ... *)
 Example C27_nonvacuous_repeat_fold :
-  c27_opt_ok (RRepeat 2%nat (Some 3%nat) (RLit true [107]%N), REmpty,
-              RConcat [RLit true [107]; RLit true [107]; RQuest (RClass [(75, 75); (107, 107); (8490, 8490)])]%N, []) = true.
-Proof. vm_compute. reflexivity. Qed.
+  let a2 := RConcat [RLit true [107]; RLit true [107]; RQuest (RClass [(75, 75); (107, 107); (8490, 8490)])]%N in
+  c27_opt_ok (RRepeat 2%nat (Some 3%nat) (RLit true [107]%N), REmpty, a2, REmpty, []) = true /\
+  c27_optprint_ok (REmpty, REmpty, a2, RConcat [RLit true [107; 107]; RQuest (RLit true [107])]%N, []) = true.
+Proof. vm_compute. split; reflexivity. Qed.
 (** ... and refuses expressions with different languages (a+ vs a*, ^ vs \A). *)
 Example C27_nonvacuous_rejects :
-  c27_opt_ok (RPlus (RLit false [97]%N), REmpty, RStar (RLit false [97]%N), []) = false /\
-  c27_print_ok (RBeginLine, RBeginText, REmpty, []) = false.
+  c27_opt_ok (RPlus (RLit false [97]%N), REmpty, RStar (RLit false [97]%N), REmpty, []) = false /\
+  c27_print_ok (RBeginLine, RBeginText, REmpty, REmpty, []) = false.
 Proof. vm_compute. split; reflexivity. Qed.
